@@ -77,6 +77,18 @@ class AsyncQueue[Element](AsyncIterator[Element]):
             # wait for the result
             return await self._waiting
 
+        except CancelledError:
+            # do not lose an element already handed over to the cancelled consumer
+            if (
+                self._waiting is not None
+                and self._waiting.done()
+                and not self._waiting.cancelled()
+                and self._waiting.exception() is None
+            ):
+                self._queue.appendleft(self._waiting.result())
+
+            raise
+
         finally:
             # cleanup
             self._waiting = None
